@@ -19,7 +19,10 @@ CONSTANTS MaxLen, Alphabet
 Code == [a |-> 97, b |-> 98, bs |-> 92, q |-> 63, plus |-> 43, star |-> 42, lb |-> 91, rb |-> 93,
          dash |-> 45, bang |-> 33, slash |-> 47, dot |-> 46, sp |-> 32, tab |-> 9, tilde |-> 126,
          caret |-> 94, colon |-> 58, cr |-> 13, nl |-> 10, uni |-> 233, ctl |-> 1,
-         nul |-> 0, bad |-> 65533]
+         nul |-> 0, bad |-> 65533,
+         \* ordinary characters that other layers give a meaning to: U+3000 (white space for unicode.IsSpace, not for
+         \* git), and the characters of a ${{ }} placeholder (filters are not evaluated: they are pattern characters)
+         usp |-> 12288, dollar |-> 36, lc |-> 123, rc |-> 125]
 \* NUL and invalid UTF-8 ("bad", seen as U+FFFD): the scanner reports an error for them, so a pattern that
 \* contains one is invalid.  They are not part of the exhaustive alphabets; the operational layer does not
 \* model where the scanner error is placed (recorded executions with them are judged by the declarative layer).
